@@ -204,6 +204,19 @@ def add_header_to_file(
         out.write("\n")
         result = 1
     else:
+        try:
+            # Opening the file for writing empties it: make sure beforehand
+            # that everything can be written.
+            (bom + output).encode("utf-8")
+        except UnicodeEncodeError:
+            out.write(
+                _(
+                    "Error: the header for '{path}' cannot be encoded as"
+                    " UTF-8. Did not write new header."
+                ).format(path=path)
+            )
+            out.write("\n")
+            return 1
         with open(path, "w", encoding="utf-8", newline=line_ending) as fp:
             fp.write(bom + output)
         # TODO: This may need to be rephrased more elegantly.
